@@ -210,8 +210,19 @@ def s4(base):
     transfer(staging, odb, {obj.hash_info}, shallow=False)
 
 
+def s5(base):
+    """the same index saved into a cache and then, in the same run, into a second store (save(index, odb=...) twice)"""
+    from dvc_data.index import md5, save
+    from dvc_data.index import build as ibuild
+
+    fs, ws = LocalFileSystem(), os.path.join(base, "ws")
+    index = md5(ibuild(ws, fs))
+    save(index, odb=LocalHashFileDB(fs, os.path.join(base, "audit", "cache")))
+    save(index, odb=LocalHashFileDB(fs, os.path.join(base, "audit", "cache2")))
+
+
 SCENARIOS = {"stage+transfer(state)": (s1, None, True), "index-save(2 caches)": (s2, None, False),
-             "store-to-store": (s3, s3_prepare, False), "upload-staging": (s4, None, False)}
+             "store-to-store": (s3, s3_prepare, False), "upload-staging": (s4, None, False), "index-save-twice(odb=)": (s5, None, False)}
 
 
 import re  # noqa: E402
@@ -299,7 +310,7 @@ def main():
                 cleanup(base)
     print(json.dumps({"evaluations": evals, "distinct_nontrivial": evals, "n_failures": len(failures), "failures": failures,
                       "crash_points": points,
-                      "bound": "4 scenarios (stage+transfer with state, index save into 2 caches, store-to-store, upload staging) over a fixed "
+                      "bound": "5 scenarios (stage+transfer with state, index save into 2 caches, store-to-store, upload staging, one index saved into two stores in a row) over a fixed "
                                "6-file workspace; every os-level mutation of each run is a crash point, taken once (exhaustive within the family)"}))
 
 
